@@ -25,6 +25,20 @@ let parse_ev (t : string) : oevent =
     | _ -> failwith ("bad event " ^ t)
   end
 
+(* pairing_b n l (Coq, proved equivalent to the per-item statement by C03_pairing_checker) is
+   quadratic; for long logs the events are grouped by item here (order preserved) and the
+   extracted per-item checker item_complete_b is applied to each group: every item id < n
+   has a complete history, no event mentions an item >= n. *)
+let pairing_grouped (n : int) (l : event list) : bool =
+  let groups = Array.make (max n 1) [] in
+  let ok = ref true in
+  List.iter (fun e -> let a = int_of_nat e.ev_item in
+                      if a >= n then ok := false else groups.(a) <- e :: groups.(a)) l;
+  !ok && (let r = ref true in
+          for a = 0 to n - 1 do
+            if not (item_complete_b (List.rev groups.(a))) then r := false
+          done; !r)
+
 let rec sum_own = function [] -> 0 | x :: r -> int_of_nat x.own + sum_own r
 
 let predict (c : string) (obs : string) : string * string * bool =
@@ -66,15 +80,8 @@ let predict (c : string) (obs : string) : string * string * bool =
             else if istart = 0 then "ok" (* no instance started: outside the statement *)
             else begin
               let tokens = if per then istart * tn else tn in
-              let obs_events = events { st with sh = { sh with log = [] } } in
-              ignore obs_events;
-              (* item histories from the OBSERVED log (independent of the replay's acceptance) *)
-              let oev = List.concat (List.map (fun e -> match e with
-                  | OAcq (i, Some a) -> [{ ev_inst = i; ev_kind = EAcq; ev_item = a }]
-                  | OShoot (i, a) -> [{ ev_inst = i; ev_kind = EShoot; ev_item = a }]
-                  | ORel (i, a) -> [{ ev_inst = i; ev_kind = ERel; ev_item = a }]
-                  | _ -> []) evs) in
               (* discards carry no item in the observation: attach each to the item its instance holds *)
+              (* item histories from the OBSERVED log (independent of the replay's acceptance) *)
               let oev_with_disc =
                 let held = Hashtbl.create 16 in
                 List.concat (List.map (fun e -> match e with
@@ -82,14 +89,14 @@ let predict (c : string) (obs : string) : string * string * bool =
                   | OShoot (i, a) -> [{ ev_inst = i; ev_kind = EShoot; ev_item = a }]
                   | ODisc i -> (match Hashtbl.find_opt held (int_of_nat i) with
                                 | Some a -> [{ ev_inst = i; ev_kind = EDisc; ev_item = a }]
-                                | None -> [{ ev_inst = i; ev_kind = EDisc; ev_item = nat_of_int 1000000 }])
+                                | None -> [{ ev_inst = i; ev_kind = EDisc; ev_item = nat_of_int (acq + 1) }])
                   | ORel (i, a) -> Hashtbl.remove held (int_of_nat i); [{ ev_inst = i; ev_kind = ERel; ev_item = a }]
                   | _ -> []) evs) in
-              ignore oev;
               if shots + dis <> min tokens an then
                 Printf.sprintf "BAD:conservation fired+discarded=%d min(tokens=%d,ammo=%d)" (shots + dis) tokens an
               else if acq <> rel then "BAD:acquired<>released"
-              else if not (pairing_b (nat_of_int acq) oev_with_disc) then "BAD:acquire-release-pairing"
+              else if not (pairing_grouped acq oev_with_disc) then "BAD:acquire-release-pairing"
+              else if acq <= 150 && not (pairing_b (nat_of_int acq) oev_with_disc) then "BAD:pairing-checkers-disagree"
               else if badsamples <> "0" then "BAD:unexpected-sample-or-release"
               else if per && acq <> shots + dis then "BAD:unfired-with-per-instance-profiles"
               else if (not per) && acq - (shots + dis) > istart - 1 then "BAD:unfired-bound"
